@@ -46,7 +46,7 @@ VALUATIONS = [
 NUM_CONTEXTS = ["assign", "self_assign", "if_else", "if_noelse", "print", "for_start", "for_limit", "for_step", "sub_read",
                 "sub_write", "on"]
 COND_CONTEXTS = ["if_else", "if_noelse"]
-STR_CONTEXTS = ["assign_s", "self_assign_s", "print_s", "if_s", "if_s_noelse"]
+STR_CONTEXTS = ["assign_s", "self_assign_s", "print_s", "if_s", "if_s_noelse", "print_then_assign_s"]
 CONVERTIBLE = {"INT", "VAL", "STR$", "HEX$", "INSTR", "STRING$", "INKEY$", "BUTTON", "JOYSTK", "POINT"}
 
 
@@ -84,6 +84,10 @@ def block(ctx, e, base, rv, v_e):
         return [(base + 1, [("let", ("var", "A$"), e, False), ("let", ("var", rv + "$"), ("var", "A$"), False)])]
     if ctx == "assign_s":
         return [(base + 1, [("let", ("var", rv + "$"), e, False)])]
+    if ctx == "print_then_assign_s":
+        # a number is printed (its text passes through a string temporary) before the string expression is evaluated
+        return [(base + 1, [("print", [("e", ("var", "A")), ("sep", ";"), ("e", ("fn", "STR$", [("var", "B")]))], None)]),
+                (base + 2, [("let", ("var", rv + "$"), e, False)])]
     if ctx == "assign_arr_s":
         # the same through a string array element (a different statement class in the tool)
         return [(base + 1, [("let", ("arr", "S$", [X.num(base // 100 % 9)]), e, False)]),
@@ -214,6 +218,9 @@ def source_value(ctx, e, val):
     return "ok", v
 
 
+STORAGE = [32]          # the string size the case is converted with (set by _run_case from case["storage"])
+
+
 def evaluate(ctx, e):
     """Full differential run of one (context, expression).  -> dict"""
     res = {"status": None, "diffs": [], "compared": 0, "refused": False}
@@ -234,13 +241,13 @@ def evaluate(ctx, e):
         return res
     text = render(prog)
     res["source"] = text
-    conv = harness.convert(text)
+    conv = harness.convert(text) if STORAGE[0] == 32 else harness.convert(text, default_str_storage=STORAGE[0])
     if not conv["ok"]:
         res["status"] = "refused" if conv["documented"] else "internal"
         res["conv"] = {k: conv.get(k) for k in ("exc", "site", "stem")}
         return res
     res["emitted"] = conv["out"]
-    b = harness.run_b09(conv["out"], budget=60000)
+    b = harness.run_b09(conv["out"], budget=60000, storage=STORAGE[0])
     ctx = split_ctx(ctx)[0]
     res["b09_status"] = b["status"]
     if b["status"] != "ok":
@@ -287,16 +294,18 @@ def run_case(case):
     from ..cbref import interp as cbi
 
     cbi.APPROX[0] = bool(case.get("approx"))
+    STORAGE[0] = case.get("storage", 32)
     try:
         return _run_case(case)
     finally:
         cbi.APPROX[0] = False
+        STORAGE[0] = 32
 
 
 def _run_case(case):
     ctx = case["ctx"]
     e = case["e"]
-    key = ctx + "|" + X.shape_key(e)
+    key = ctx + "|" + X.shape_key(e) + ("|s%d" % case["storage"] if case.get("storage") else "")
     obs = {"key": key, "counters": {"cases": 1}, "viols": [], "sets": {"contexts": [ctx]}}
     # oracle self-check: rendering re-parses (independent precedence parser) to the abstract tree
     try:
@@ -544,6 +553,16 @@ def cases(tier, seed):
         for ctx in STR_CONTEXTS:
             for place in PLACES:
                 yield {"ctx": ctx + "@" + place, "e": e}
+    # 3c'. strings longer than BASIC09's 32 bytes, under a larger configured string size: every string the tool declares
+    # for the statement (temporaries included) holds what the size option promises
+    for st_ in (80, 255, 33):
+        n_ = st_ // 2
+        for e in [("bin", "+", ("fn", "STRING$", [X.num(n_), ("str", "*")]), ("str", "!")),
+                  ("bin", "+", ("bin", "+", ("fn", "STR$", [("var", "A")]), ("fn", "STRING$", [X.num(n_), ("str", "=")])), ("fn", "HEX$", [X.num(255)])),
+                  ("fn", "LEFT$", [("bin", "+", ("fn", "STRING$", [X.num(st_ - 2), ("var", "B$")]), ("str", "Z")), X.num(st_ - 1)]),
+                  ("fn", "MID$", [("fn", "STRING$", [X.num(st_ - 1), ("str", "AB")]), X.num(2), X.num(st_ - 3)])]:
+            for ctx in ("assign_s", "print_then_assign_s", "self_assign_s", "assign_arr_s", "if_s"):
+                yield {"ctx": ctx, "e": e, "storage": st_}
     # 3d. string constants without their closing quote (legal at the end of a line), to scalars and to array elements
     for t in ("HELLO", "X", "A B ", "", "TWO  ", "Q:R,S"):
         for ctx in ("assign_s", "assign_arr_s", "assign_s@late", "assign_arr_s@jump"):
